@@ -373,7 +373,7 @@ def _hyp_segments(spec, seed):
 
     @st.composite
     def case(draw):
-        sid = draw(st.sampled_from(['TST', 'NM1', 'N3', 'SV1']))
+        sid = draw(st.sampled_from(['TST', 'NM1', 'N3', 'SV1', 'N1', 'N10', 'B2']))
         init = [[draw(val) for _ in range(draw(st.sampled_from([1, 1, 1, 2, 3])))] for _ in range(draw(st.integers(0, 5)))]
         # the constructor keeps what it is given; make the last component of the initial text non-empty so that the
         # textual form and the list form coincide
@@ -383,7 +383,9 @@ def _hyp_segments(spec, seed):
             kind = draw(st.sampled_from(['set', 'set', 'get']))
             # foreign ids come from the same pool as the segments of other cases of this process: a designator that
             # worked on its own segment a moment ago must still be refused here
-            with_id = draw(st.sampled_from([None, None, sid, sid, 'ZZZ', 'REF', 'TST', 'NM1', 'N3', 'SV1']))
+            # ... and ids of which the segment's own id is a textual prefix (N1 / N10, B2 / B2A), or the other way round
+            with_id = draw(st.sampled_from([None, None, sid, sid, 'ZZZ', 'REF', 'TST', 'NM1', 'N3', 'SV1', 'N1', 'N10', 'B2', 'B2A',
+                                            sid[:2], sid + 'A' if len(sid) == 2 else sid[:2] + '9']))
             ei = draw(st.one_of(st.integers(1, 8), st.integers(1, 30)))
             ci = draw(st.sampled_from([None, None, 1, 2, 3, 7]))
             v = draw(val) if kind == 'set' else None
